@@ -1,9 +1,19 @@
-(* Proofs/SparseProofs.v — proofs about Vars/Sparse.v *)
+(* Proofs/SparseProofs.v — proofs about Vars/Sparse.v: the reference map is a finite map; binary search;
+   SetIndexedElem/DeleteIndexedElem/lookups refine the map operations and keep the representation invariant;
+   every interpreter operation refines its bash rule; lifted to all histories. *)
 From Coq Require Import ZifyNat ZifyBool ZifyN.
 From Verif Require Import Base.Str Vars.Sparse.
 Open Scope Z_scope.
 
-(* ---------------------------------------------------------------- the reference map is a finite map *)
+(* ================================================================ A. the reference map is a finite map *)
+
+Definition m_wf (lo : Z) (m : smap) : Prop := sorted_from lo (map fst m).
+
+Lemma sorted_from_weaken : forall ix lo lo', lo' <= lo -> sorted_from lo ix -> sorted_from lo' ix.
+Proof. destruct ix as [|x r]; simpl; intros; [exact I|]. split; [lia|tauto]. Qed.
+
+Lemma sorted_from_tail : forall x r lo, sorted_from lo (x :: r) -> sorted_from lo r.
+Proof. simpl. intros x r lo [H1 H2]. eapply sorted_from_weaken; [|exact H2]. lia. Qed.
 
 Lemma m_get_set_same : forall k v m, m_get k (m_set k v m) = Some v.
 Proof.
@@ -12,4 +22,848 @@ Proof.
   - destruct (k' <? k) eqn:E1; simpl.
     + destruct (k =? k') eqn:E2; [lia|exact IH].
     + destruct (k' =? k) eqn:E2; simpl; rewrite Z.eqb_refl; reflexivity.
+Qed.
+
+Lemma m_get_set_other : forall k k' v m, k' <> k -> m_get k' (m_set k v m) = m_get k' m.
+Proof.
+  induction m as [|[k0 v0] r IH]; intros Hne; simpl.
+  - destruct (k' =? k) eqn:E; [lia|reflexivity].
+  - destruct (k0 <? k) eqn:E1; simpl.
+    + destruct (k' =? k0); [reflexivity|apply IH; exact Hne].
+    + destruct (k0 =? k) eqn:E2; simpl.
+      * destruct (k' =? k) eqn:E3; [lia|]. destruct (k' =? k0) eqn:E4; [lia|reflexivity].
+      * destruct (k' =? k) eqn:E3; [lia|reflexivity].
+Qed.
+
+Lemma m_get_above : forall k m lo, m_wf lo m -> k < lo -> m_get k m = None.
+Proof.
+  induction m as [|[k0 v0] r IH]; intros lo Hwf Hlt; simpl; [reflexivity|].
+  destruct Hwf as [H1 H2]. simpl in H1. destruct (k =? k0) eqn:E; [lia|].
+  apply (IH (k0 + 1)); [exact H2|lia].
+Qed.
+
+Lemma m_get_del_same : forall k m lo, m_wf lo m -> m_get k (m_del k m) = None.
+Proof.
+  induction m as [|[k0 v0] r IH]; intros lo Hwf; simpl; [reflexivity|].
+  destruct Hwf as [H1 H2]. simpl in H1.
+  destruct (k0 <? k) eqn:E1; simpl.
+  - destruct (k =? k0) eqn:E2; [lia|]. apply (IH (k0 + 1)). exact H2.
+  - destruct (k0 =? k) eqn:E2.
+    + apply (m_get_above k r (k0 + 1)); [exact H2|lia].
+    + simpl. destruct (k =? k0) eqn:E3; [lia|]. apply (m_get_above k r (k0 + 1)); [exact H2|lia].
+Qed.
+
+Lemma m_get_del_other : forall k k' m, k' <> k -> m_get k' (m_del k m) = m_get k' m.
+Proof.
+  induction m as [|[k0 v0] r IH]; intros Hne; simpl; [reflexivity|].
+  destruct (k0 <? k) eqn:E1; simpl.
+  - destruct (k' =? k0); [reflexivity|apply IH; exact Hne].
+  - destruct (k0 =? k) eqn:E2; simpl; [|reflexivity].
+    destruct (k' =? k0) eqn:E3; [lia|reflexivity].
+Qed.
+
+Lemma m_set_wf : forall k v m lo, m_wf lo m -> lo <= k -> m_wf lo (m_set k v m).
+Proof.
+  unfold m_wf. induction m as [|[k0 v0] r IH]; intros lo Hwf Hlo; simpl.
+  - split; [lia|exact I].
+  - destruct Hwf as [H1 H2]. simpl in H1.
+    destruct (k0 <? k) eqn:E1; simpl.
+    + split; [exact H1|]. apply IH; [exact H2|lia].
+    + destruct (k0 =? k) eqn:E2; simpl.
+      * split; [lia|]. replace (k + 1) with (k0 + 1) by lia. exact H2.
+      * split; [lia|]. split; [lia|exact H2].
+Qed.
+
+Lemma m_del_wf : forall k m lo, m_wf lo m -> m_wf lo (m_del k m).
+Proof.
+  unfold m_wf. induction m as [|[k0 v0] r IH]; intros lo Hwf; simpl; [exact I|].
+  destruct Hwf as [H1 H2]. simpl in H1.
+  destruct (k0 <? k) eqn:E1; simpl.
+  - split; [exact H1|]. apply IH. exact H2.
+  - destruct (k0 =? k) eqn:E2; simpl.
+    + simpl in H2. eapply sorted_from_weaken; [|exact H2]. lia.
+    + split; assumption.
+Qed.
+
+Lemma m_keys_get : forall k m, In k (m_keys m) <-> m_get k m <> None.
+Proof.
+  induction m as [|[k0 v0] r IH]; simpl.
+  - split; [tauto|congruence].
+  - destruct (k =? k0) eqn:E.
+    + split; [congruence|]. intros _. left. lia.
+    + rewrite <- IH. split; [intros [H|H]; [lia|exact H]|tauto].
+Qed.
+
+(* two well-formed maps with the same lookups are the same list: the reference model is canonical *)
+Lemma m_ext : forall m1 m2 lo, m_wf lo m1 -> m_wf lo m2 -> (forall k, m_get k m1 = m_get k m2) -> m1 = m2.
+Proof.
+  induction m1 as [|[k1 v1] r1 IH]; intros m2 lo W1 W2 H.
+  - destruct m2 as [|[k2 v2] r2]; [reflexivity|]. specialize (H k2). simpl in H. rewrite Z.eqb_refl in H. discriminate.
+  - destruct m2 as [|[k2 v2] r2].
+    + specialize (H k1). simpl in H. rewrite Z.eqb_refl in H. discriminate.
+    + destruct W1 as [A1 A2], W2 as [B1 B2]. simpl in A1, B1.
+      assert (k1 = k2).
+      { destruct (Z.lt_trichotomy k1 k2) as [L|[L|L]]; [|exact L|].
+        - pose proof (H k1) as Hk. simpl in Hk. rewrite Z.eqb_refl in Hk.
+          destruct (k1 =? k2) eqn:E; [lia|]. rewrite (m_get_above k1 r2 (k2 + 1)) in Hk; [discriminate|exact B2|lia].
+        - pose proof (H k2) as Hk. simpl in Hk. rewrite Z.eqb_refl in Hk.
+          destruct (k2 =? k1) eqn:E; [lia|]. rewrite (m_get_above k2 r1 (k1 + 1)) in Hk; [discriminate|exact A2|lia]. }
+      subst k2. pose proof (H k1) as Hk. simpl in Hk. rewrite Z.eqb_refl in Hk. inversion Hk; subst v2.
+      f_equal. apply (IH r2 (k1 + 1)); [exact A2|exact B2|].
+      intros k. specialize (H k). simpl in H. destruct (k =? k1) eqn:E; [|exact H].
+      rewrite (m_get_above k r1 (k1 + 1)), (m_get_above k r2 (k1 + 1)); try assumption; try lia. reflexivity.
+Qed.
+
+(* ================================================================ B1. binary search *)
+
+(* number of leading elements below k: where BinarySearch lands on a sorted slice *)
+Fixpoint lb (ix : list Z) (k : Z) : nat :=
+  match ix with [] => O | x :: r => if x <? k then S (lb r k) else O end.
+
+Definition found (ix : list Z) (k : Z) : bool :=
+  match nth_error ix (lb ix k) with Some e => e =? k | None => false end.
+
+Lemma lb_le_length : forall ix k, (lb ix k <= length ix)%nat.
+Proof. induction ix as [|x r IH]; intros k; simpl; [lia|]. destruct (x <? k); [specialize (IH k)|]; lia. Qed.
+
+Lemma sorted_nth_ge : forall r lo h e, sorted_from lo r -> nth_error r h = Some e -> lo <= e.
+Proof.
+  induction r as [|x r IH]; intros lo h e Hs Hn; [destruct h; discriminate|].
+  destruct Hs as [H1 H2]. destruct h as [|h]; simpl in Hn.
+  - inversion Hn; subst. exact H1.
+  - specialize (IH _ _ _ H2 Hn). lia.
+Qed.
+
+Lemma sorted_lb_split : forall ix lo k h e, sorted_from lo ix -> nth_error ix h = Some e ->
+  ((e <? k) = true <-> (h < lb ix k)%nat).
+Proof.
+  induction ix as [|x r IH]; intros lo k h e Hs Hn; [destruct h; discriminate|].
+  destruct Hs as [H1 H2]. simpl lb. destruct h as [|h]; simpl in Hn.
+  - inversion Hn; subst. destruct (e <? k); split; intros; try lia; discriminate.
+  - destruct (x <? k) eqn:E.
+    + rewrite (IH _ k h e H2 Hn). lia.
+    + pose proof (sorted_nth_ge _ _ _ _ H2 Hn). split; intros; lia.
+Qed.
+
+Lemma div2_bounds : forall i j, (i < j)%nat -> (i <= Nat.div2 (i + j) < j)%nat.
+Proof.
+  intros i j H. rewrite Nat.div2_div. split.
+  - apply Nat.div_le_lower_bound; lia.
+  - apply Nat.div_lt_upper_bound; lia.
+Qed.
+
+Lemma bsearch_loop_correct : forall ix lo k, sorted_from lo ix ->
+  forall fuel i j, (i <= lb ix k)%nat -> (lb ix k <= j)%nat -> (j <= length ix)%nat -> (j - i < fuel)%nat ->
+  bsearch_loop fuel ix k i j = Ok (lb ix k).
+Proof.
+  intros ix lo k Hs. induction fuel as [|fuel IH]; intros i j Hi Hj Hjl Hf; [lia|].
+  simpl. destruct (Nat.ltb i j) eqn:Elt.
+  - apply Nat.ltb_lt in Elt. pose proof (div2_bounds i j Elt) as [Hb1 Hb2].
+    set (h := Nat.div2 (i + j)) in *.
+    destruct (nth_error ix h) as [e|] eqn:En.
+    2:{ apply nth_error_None in En. lia. }
+    pose proof (sorted_lb_split ix lo k h e Hs En) as Hsp.
+    destruct (e <? k) eqn:Ef.
+    + apply IH; try lia.
+    + apply IH; try lia.
+  - apply Nat.ltb_ge in Elt. f_equal. lia.
+Qed.
+
+Lemma bsearch_sorted : forall ix lo k, sorted_from lo ix -> bsearch ix k = Ok (lb ix k, found ix k).
+Proof.
+  intros ix lo k Hs. unfold bsearch.
+  rewrite (bsearch_loop_correct ix lo k Hs); try lia.
+  - reflexivity.
+  - apply lb_le_length.
+Qed.
+
+(* ================================================================ B4. iota *)
+
+Lemma iota_from_length : forall n s, length (iota_from s n) = n.
+Proof. induction n; intros; simpl; [reflexivity|]. rewrite IHn. reflexivity. Qed.
+
+Lemma iota_from_sorted : forall n s lo, lo <= s -> sorted_from lo (iota_from s n).
+Proof. induction n; intros; simpl; [exact I|]. split; [lia|]. apply IHn. lia. Qed.
+
+Lemma iota_from_snoc : forall n s, iota_from s (S n) = iota_from s n ++ [s + Z.of_nat n].
+Proof.
+  induction n; intros s.
+  - simpl. f_equal. lia.
+  - change (iota_from s (S (S n))) with (s :: iota_from (s + 1) (S n)). rewrite IHn. simpl. do 3 f_equal. lia.
+Qed.
+
+Lemma iota_from_nth : forall n s i, (i < n)%nat -> nth_error (iota_from s n) i = Some (s + Z.of_nat i).
+Proof.
+  induction n; intros s i Hi; [lia|]. destruct i as [|i]; simpl.
+  - f_equal. lia.
+  - rewrite IHn by lia. f_equal. lia.
+Qed.
+
+Lemma iota_from_lb : forall n s k, s <= k -> lb (iota_from s n) k = Nat.min (Z.to_nat (k - s)) n.
+Proof.
+  induction n; intros s k Hk; simpl; [lia|].
+  destruct (s <? k) eqn:E.
+  - rewrite IHn by lia. lia.
+  - lia.
+Qed.
+
+Lemma iota_from_lb_below : forall n s k, k <= s -> lb (iota_from s n) k = O.
+Proof. destruct n; intros; simpl; [reflexivity|]. destruct (s <? k) eqn:E; [lia|reflexivity]. Qed.
+
+Lemma is_iota_from_eq : forall ix s, is_iota_from s ix = true -> ix = iota_from s (length ix).
+Proof.
+  induction ix as [|x r IH]; intros s H; [reflexivity|].
+  simpl in H. destruct (x =? s) eqn:E; [|discriminate].
+  simpl. f_equal; [lia|]. apply IH. exact H.
+Qed.
+
+Lemma is_iota_from_iota : forall n s, is_iota_from s (iota_from s n) = true.
+Proof. induction n; intros; simpl; [reflexivity|]. rewrite Z.eqb_refl. apply IHn. Qed.
+
+(* ================================================================ B2. list operations vs map operations *)
+
+Lemma upd_length : forall A (l : list A) n v l', upd l n v = Ok l' -> length l' = length l.
+Proof.
+  induction l as [|x r IH]; intros n v l' H; [destruct n; discriminate|].
+  destruct n as [|n]; simpl in H.
+  - inversion H. reflexivity.
+  - destruct (upd r n v) eqn:E; try discriminate. inversion H. simpl. f_equal. eapply IH. exact E.
+Qed.
+
+(* set, index present *)
+Lemma set_found : forall ix l k v, length ix = length l -> found ix k = true ->
+  exists l', upd l (lb ix k) v = Ok l' /\ combine ix l' = m_set k v (combine ix l).
+Proof.
+  unfold found. induction ix as [|x r IH]; intros l k v Hlen Hf; [discriminate|].
+  destruct l as [|y l]; [discriminate|]. simpl in Hlen. simpl lb in *.
+  destruct (x <? k) eqn:E.
+  - simpl in Hf. destruct (IH l k v) as (l' & H1 & H2); [lia|exact Hf|].
+    exists (y :: l'). simpl. rewrite H1, E, H2. split; reflexivity.
+  - simpl in Hf. exists (v :: l). simpl. rewrite E, Hf. split; [reflexivity|]. f_equal. f_equal. lia.
+Qed.
+
+(* set, index absent *)
+Lemma set_not_found : forall ix l k v, length ix = length l -> found ix k = false ->
+  exists l' ix', insert_at (lb ix k) v l = Ok l' /\ insert_at (lb ix k) k ix = Ok ix' /\
+                 length ix' = length l' /\ combine ix' l' = m_set k v (combine ix l) /\
+                 (forall lo, sorted_from lo ix -> lo <= k -> sorted_from lo ix').
+Proof.
+  unfold found. induction ix as [|x r IH]; intros l k v Hlen Hf.
+  - destruct l; [|discriminate]. exists [v], [k]. simpl. repeat split; auto.
+  - destruct l as [|y l]; [discriminate|]. simpl in Hlen. simpl lb in *.
+    destruct (x <? k) eqn:E.
+    + simpl in Hf. destruct (IH l k v) as (l' & ix' & H1 & H2 & H3 & H4 & H5); [lia|exact Hf|].
+      exists (y :: l'), (x :: ix'). simpl. rewrite H1, H2, E, H4. repeat split; auto.
+      * simpl in H. tauto.
+      * simpl in H. apply H5; [tauto|lia].
+    + simpl in Hf. exists (v :: y :: l), (k :: x :: r). simpl. rewrite E, Hf. repeat split; auto; simpl in H; try lia; tauto.
+Qed.
+
+Lemma del_found : forall ix l k, length ix = length l -> found ix k = true ->
+  exists l' ix', delete_at (lb ix k) l = Ok l' /\ delete_at (lb ix k) ix = Ok ix' /\
+                 length ix' = length l' /\ combine ix' l' = m_del k (combine ix l) /\
+                 (forall lo, sorted_from lo ix -> sorted_from lo ix').
+Proof.
+  unfold found. induction ix as [|x r IH]; intros l k Hlen Hf; [discriminate|].
+  destruct l as [|y l]; [discriminate|]. simpl in Hlen. simpl lb in *.
+  destruct (x <? k) eqn:E.
+  - simpl in Hf. destruct (IH l k) as (l' & ix' & H1 & H2 & H3 & H4 & H5); [lia|exact Hf|].
+    exists (y :: l'), (x :: ix'). simpl. rewrite H1, H2, E, H4. repeat split; auto.
+    + simpl in H. tauto.
+    + simpl in H. apply H5. tauto.
+  - simpl in Hf. exists l, r. simpl. rewrite E, Hf. repeat split; auto; try lia.
+    intros lo Hs. eapply sorted_from_tail. exact Hs.
+Qed.
+
+Lemma del_not_found : forall ix l k lo, length ix = length l -> sorted_from lo ix -> found ix k = false ->
+  m_del k (combine ix l) = combine ix l.
+Proof.
+  unfold found. induction ix as [|x r IH]; intros l k lo Hlen Hs Hf; [reflexivity|].
+  destruct l as [|y l]; [reflexivity|]. simpl in Hlen. simpl lb in *. simpl.
+  destruct (x <? k) eqn:E.
+  - simpl in Hf. f_equal. apply (IH l k (x + 1)); [lia|simpl in Hs; tauto|exact Hf].
+  - simpl in Hf. rewrite Hf. reflexivity.
+Qed.
+
+Lemma get_above : forall ix l k lo, sorted_from lo ix -> k < lo -> m_get k (combine ix l) = None.
+Proof.
+  induction ix as [|x r IH]; intros l k lo Hs Hk; [reflexivity|].
+  destruct l as [|y l]; [reflexivity|]. simpl. destruct Hs as [H1 H2].
+  destruct (k =? x) eqn:E; [lia|]. apply (IH l k (x + 1)); [exact H2|lia].
+Qed.
+
+Lemma get_sorted : forall ix l k lo, length ix = length l -> sorted_from lo ix ->
+  m_get k (combine ix l) = if found ix k then nth_error l (lb ix k) else None.
+Proof.
+  unfold found. induction ix as [|x r IH]; intros l k lo Hlen Hs; [reflexivity|].
+  destruct l as [|y l]; [discriminate|]. simpl in Hlen. destruct Hs as [H1 H2]. simpl lb. simpl m_get.
+  destruct (x <? k) eqn:E.
+  - destruct (k =? x) eqn:E2; [lia|]. simpl. apply (IH l k (x + 1)); [lia|exact H2].
+  - simpl. destruct (k =? x) eqn:E2.
+    + replace (x =? k) with true by lia. reflexivity.
+    + replace (x =? k) with false by lia. apply (get_above r l k (x + 1)); [exact H2|lia].
+Qed.
+
+Lemma combine_keys : forall (ix : list Z) (l : list str), length ix = length l -> map fst (combine ix l) = ix.
+Proof.
+  induction ix as [|x r IH]; intros l H; [reflexivity|]. destruct l; [discriminate|]. simpl. f_equal. apply IH. simpl in H. lia.
+Qed.
+
+Lemma combine_vals : forall (ix : list Z) (l : list str), length ix = length l -> map snd (combine ix l) = l.
+Proof.
+  induction ix as [|x r IH]; intros l H; destruct l; try discriminate; [reflexivity|]. simpl. f_equal. apply IH. simpl in H. lia.
+Qed.
+
+Lemma insert_at_end : forall A (l : list A) v, insert_at (length l) v l = Ok (l ++ [v]).
+Proof. induction l; intros; simpl; [reflexivity|]. rewrite IHl. reflexivity. Qed.
+
+Lemma delete_at_last : forall A (l : list A) n, length l = S n -> delete_at n l = Ok (firstn n l).
+Proof.
+  induction l as [|x r IH]; intros n H; [discriminate|]. simpl in H.
+  destruct n as [|n]; simpl.
+  - destruct r; [reflexivity|discriminate].
+  - rewrite IH by lia. reflexivity.
+Qed.
+
+Lemma firstn_iota : forall n s m, (m <= n)%nat -> firstn m (iota_from s n) = iota_from s m.
+Proof.
+  induction n; intros s m H; destruct m; simpl; try reflexivity; try lia. f_equal. apply IHn. lia.
+Qed.
+
+(* ================================================================ B5. SetIndexedElem / DeleteIndexedElem refine m_set / m_del *)
+
+Definition idx_of (a : arr) : list Z :=
+  match a_idx a with Some ix => ix | None => iota (length (a_list a)) end.
+
+Lemma abs_idx : forall a, abs a = combine (idx_of a) (a_list a).
+Proof. reflexivity. Qed.
+
+Lemma inv_idx : forall a, Inv a -> length (idx_of a) = length (a_list a) /\ sorted_from 0 (idx_of a).
+Proof.
+  unfold Inv, idx_of. intros a H. destruct (a_idx a) as [ix|].
+  - tauto.
+  - unfold iota. rewrite iota_from_length. split; [reflexivity|]. apply iota_from_sorted. lia.
+Qed.
+
+(* wrapping a well-formed index list with CanonicalIndexes *)
+Lemma canonical_ok : forall l ix, length ix = length l -> sorted_from 0 ix ->
+  Inv (mkArr l (canonical ix)) /\ abs (mkArr l (canonical ix)) = combine ix l.
+Proof.
+  intros l ix Hlen Hs. unfold canonical. destruct (is_iota_from 0 ix) eqn:E.
+  - split; [exact I|]. unfold abs. simpl. apply is_iota_from_eq in E. unfold iota. rewrite <- Hlen, <- E. reflexivity.
+  - split; [|reflexivity]. unfold Inv. simpl. auto.
+Qed.
+
+Lemma set_sparse_ok : forall l ix k v, length ix = length l -> sorted_from 0 ix -> 0 <= k ->
+  (found ix k = true -> forall l', length l' = length l -> Inv (mkArr l' (Some ix))) ->
+  exists a', set_sparse l ix k v = Ok a' /\ Inv a' /\ abs a' = m_set k v (combine ix l).
+Proof.
+  intros l ix k v Hlen Hs Hk Hinv. unfold set_sparse. rewrite (bsearch_sorted ix 0 k Hs).
+  destruct (found ix k) eqn:Ef.
+  - destruct (set_found ix l k v Hlen Ef) as (l' & H1 & H2). rewrite H1.
+    exists (mkArr l' (Some ix)). split; [reflexivity|]. split; [|exact H2].
+    apply Hinv; [reflexivity|]. eapply upd_length. exact H1.
+  - destruct (set_not_found ix l k v Hlen Ef) as (l' & ix' & H1 & H2 & H3 & H4 & H5). rewrite H1, H2.
+    exists (mkArr l' (canonical ix')). split; [reflexivity|].
+    destruct (canonical_ok l' ix' H3 (H5 0 Hs Hk)) as [C1 C2]. split; [exact C1|]. rewrite C2. exact H4.
+Qed.
+
+Theorem set_elem_ok : forall a k v, Inv a -> 0 <= k ->
+  exists a', set_elem a k v = Ok a' /\ Inv a' /\ abs a' = m_set k v (abs a).
+Proof.
+  intros [l oi] k v HI Hk. unfold set_elem, abs. simpl a_idx. simpl a_list.
+  destruct oi as [ix|].
+  - destruct HI as (H1 & H2 & H3). simpl in *.
+    apply set_sparse_ok; auto. intros _ l' Hl'. unfold Inv. simpl. repeat split; auto. lia.
+  - clear HI. set (n := length l). unfold len. fold n.
+    assert (Hlen : length (iota n) = length l) by (unfold iota; rewrite iota_from_length; reflexivity).
+    assert (Hs : sorted_from 0 (iota n)) by (apply iota_from_sorted; lia).
+    destruct (k <? Z.of_nat n) eqn:E1.
+    + replace (k <? 0) with false by lia.
+      assert (Hlb : lb (iota n) k = Z.to_nat k) by (unfold iota; rewrite iota_from_lb by lia; lia).
+      assert (Hf : found (iota n) k = true).
+      { unfold found. rewrite Hlb. unfold iota. rewrite iota_from_nth by lia. lia. }
+      destruct (set_found (iota n) l k v Hlen Hf) as (l' & H1 & H2). rewrite Hlb in H1. rewrite H1.
+      exists (mkArr l' None). split; [reflexivity|]. split; [exact I|]. simpl.
+      rewrite (upd_length _ _ _ _ _ H1). fold n. exact H2.
+    + destruct (k =? Z.of_nat n) eqn:E2.
+      * exists (mkArr (l ++ [v]) None). split; [reflexivity|]. split; [exact I|]. simpl.
+        assert (Hlb : lb (iota n) k = n) by (unfold iota; rewrite iota_from_lb by lia; lia).
+        assert (Hf : found (iota n) k = false).
+        { unfold found. rewrite Hlb. replace (nth_error (iota n) n) with (@None Z); [reflexivity|].
+          symmetry. apply nth_error_None. lia. }
+        destruct (set_not_found (iota n) l k v Hlen Hf) as (l' & ix' & H1 & H2 & H3 & H4 & H5).
+        rewrite <- H4. rewrite Hlb in H1, H2. unfold n in H1. rewrite insert_at_end in H1. inversion H1; subst l'.
+        replace n with (length (iota n)) in H2 at 1 by lia. rewrite insert_at_end in H2. inversion H2; subst ix'.
+        f_equal. rewrite app_length. simpl. replace (length l + 1)%nat with (S n) by lia.
+        unfold iota. rewrite iota_from_snoc. do 2 f_equal. lia.
+      * apply set_sparse_ok; auto. intros Hf. exfalso.
+        assert (Hlb : lb (iota n) k = n) by (unfold iota; rewrite iota_from_lb by lia; lia).
+        unfold found in Hf. rewrite Hlb in Hf.
+        replace (nth_error (iota n) n) with (@None Z) in Hf; [discriminate|].
+        symmetry. apply nth_error_None. lia.
+Qed.
+
+Lemma iota_found_below : forall n s k, k < s -> found (iota_from s n) k = false.
+Proof.
+  intros n s k H. unfold found. rewrite iota_from_lb_below by lia. destruct n; simpl; [reflexivity|]. lia.
+Qed.
+
+Lemma del_sparse_ok : forall l ix k, length ix = length l -> sorted_from 0 ix ->
+  (found ix k = false -> Inv (mkArr l (Some ix))) ->
+  exists a', del_sparse l ix k = Ok a' /\ Inv a' /\ abs a' = m_del k (combine ix l).
+Proof.
+  intros l ix k Hlen Hs Hinv. unfold del_sparse. rewrite (bsearch_sorted ix 0 k Hs).
+  destruct (found ix k) eqn:Ef.
+  - destruct (del_found ix l k Hlen Ef) as (l' & ix' & H1 & H2 & H3 & H4 & H5). rewrite H1, H2.
+    exists (mkArr l' (canonical ix')). split; [reflexivity|].
+    destruct (canonical_ok l' ix' H3 (H5 0 Hs)) as [C1 C2]. split; [exact C1|]. rewrite C2. exact H4.
+  - exists (mkArr l (Some ix)). split; [reflexivity|]. split; [apply Hinv; reflexivity|].
+    unfold abs. simpl. symmetry. eapply del_not_found; eauto.
+Qed.
+
+Theorem delete_elem_ok : forall a k, Inv a ->
+  exists a', delete_elem a k = Ok a' /\ Inv a' /\ abs a' = m_del k (abs a).
+Proof.
+  intros [l oi] k HI. unfold delete_elem, abs. simpl a_idx. simpl a_list.
+  destruct oi as [ix|].
+  - destruct HI as (H1 & H2 & H3). simpl in *.
+    apply del_sparse_ok; auto. intros _. unfold Inv. simpl. auto.
+  - clear HI. set (n := length l). unfold len. fold n.
+    assert (Hlen : length (iota n) = length l) by (unfold iota; rewrite iota_from_length; reflexivity).
+    assert (Hs : sorted_from 0 (iota n)) by (apply iota_from_sorted; lia).
+    destruct ((k <? 0) || (Z.of_nat n <=? k)) eqn:E1.
+    + exists (mkArr l None). split; [reflexivity|]. split; [exact I|]. simpl. fold n.
+      symmetry. apply (del_not_found (iota n) l k 0 Hlen Hs).
+      destruct (k <? 0) eqn:E0; [|unfold found].
+      * apply iota_found_below. lia.
+      * assert (Hlb : lb (iota n) k = n) by (unfold iota; rewrite iota_from_lb by lia; lia).
+        rewrite Hlb. replace (nth_error (iota n) n) with (@None Z); [reflexivity|].
+        symmetry. apply nth_error_None. lia.
+    + assert (Hlb : lb (iota n) k = Z.to_nat k) by (unfold iota; rewrite iota_from_lb by lia; lia).
+      assert (Hf : found (iota n) k = true).
+      { unfold found. rewrite Hlb. unfold iota. rewrite iota_from_nth by lia. lia. }
+      destruct (k =? Z.of_nat n - 1) eqn:E2.
+      * exists (mkArr (firstn (Z.to_nat k) l) None). split; [reflexivity|]. split; [exact I|]. simpl.
+        destruct (del_found (iota n) l k Hlen Hf) as (l' & ix' & H1 & H2 & H3 & H4 & H5).
+        rewrite <- H4. rewrite Hlb in H1, H2.
+        rewrite delete_at_last in H1 by lia. inversion H1; subst l'.
+        rewrite delete_at_last in H2 by lia. inversion H2; subst ix'.
+        f_equal. rewrite firstn_length. unfold iota. rewrite firstn_iota by lia. f_equal. lia.
+      * apply del_sparse_ok; auto. intros Hc. congruence.
+Qed.
+
+(* ================================================================ B7. lookups *)
+
+Lemma dense_get : forall (l : list str) k, 0 <= k ->
+  m_get k (combine (iota (length l)) l) = nth_error l (Z.to_nat k).
+Proof.
+  intros l k Hk. set (n := length l).
+  assert (Hlen : length (iota n) = length l) by (unfold iota; rewrite iota_from_length; reflexivity).
+  rewrite (get_sorted (iota n) l k 0 Hlen) by (apply iota_from_sorted; lia).
+  unfold found, iota. rewrite iota_from_lb by lia. replace (k - 0) with k by lia.
+  destruct (Z.to_nat k <? n)%nat eqn:E.
+  - apply Nat.ltb_lt in E. rewrite Nat.min_l by lia. rewrite iota_from_nth by lia.
+    replace (0 + Z.of_nat (Z.to_nat k) =? k) with true by lia. reflexivity.
+  - apply Nat.ltb_ge in E. rewrite Nat.min_r by lia.
+    replace (nth_error (iota_from 0 n) n) with (@None Z) by (symmetry; apply nth_error_None; rewrite iota_from_length; lia).
+    symmetry. apply nth_error_None. unfold n in E. lia.
+Qed.
+
+Theorem indexed_val_ok : forall a i, Inv a -> 0 <= i -> indexed_val a i = Ok (m_get i (abs a)).
+Proof.
+  intros [l oi] i HI Hi. unfold indexed_val, abs. simpl a_idx. simpl a_list.
+  destruct oi as [ix|].
+  - destruct HI as (H1 & H2 & H3). simpl in *.
+    rewrite (bsearch_sorted ix 0 i H2). rewrite (get_sorted ix l i 0 H1 H2).
+    destruct (found ix i) eqn:Ef; [|reflexivity].
+    destruct (nth_error l (lb ix i)) eqn:En; [reflexivity|].
+    exfalso. apply nth_error_None in En. unfold found in Ef.
+    destruct (nth_error ix (lb ix i)) eqn:En2; [|discriminate].
+    assert (lb ix i < length ix)%nat by (apply nth_error_Some; congruence). lia.
+  - rewrite dense_get by lia. unfold len.
+    destruct (i <? Z.of_nat (length l)) eqn:E.
+    + replace (i <? 0) with false by lia.
+      destruct (nth_error l (Z.to_nat i)) eqn:En; [reflexivity|].
+      apply nth_error_None in En. lia.
+    + f_equal. symmetry. apply nth_error_None. lia.
+Qed.
+
+Theorem cur_elem_ok : forall a k, Inv a -> 0 <= k -> cur_elem a k = Ok (s_get_or_empty k (abs a)).
+Proof.
+  intros [l oi] k HI Hk. pose proof (indexed_val_ok (mkArr l oi) k HI Hk) as Hv.
+  unfold cur_elem, indexed_val, s_get_or_empty in *. simpl a_idx in *. simpl a_list in *.
+  destruct oi as [ix|].
+  - destruct HI as (H1 & H2 & H3). simpl in *. rewrite (bsearch_sorted ix 0 k H2) in *.
+    destruct (found ix k).
+    + destruct (nth_error l (lb ix k)); [|discriminate]. inversion Hv. reflexivity.
+    + inversion Hv. reflexivity.
+  - destruct (k <? len l).
+    + replace (k <? 0) with false in Hv by lia.
+      destruct (nth_error l (Z.to_nat k)); [|discriminate]. inversion Hv. reflexivity.
+    + inversion Hv. reflexivity.
+Qed.
+
+(* ================================================================ B8. keys, count, max *)
+
+Lemma keys_loop_some : forall ix n i, (i + n <= length ix)%nat ->
+  keys_loop n i (Some ix) = Ok (firstn n (skipn i ix)).
+Proof.
+  intros ix. induction n as [|n IH]; intros i H; [reflexivity|].
+  simpl. destruct (nth_error ix i) as [k|] eqn:En.
+  2:{ apply nth_error_None in En. lia. }
+  rewrite IH by lia.
+  assert (Hs : skipn i ix = k :: skipn (S i) ix).
+  { clear -En. revert i En. induction ix as [|x r IHr]; intros i En; [destruct i; discriminate|].
+    destruct i as [|i]; simpl in *; [inversion En; reflexivity|]. apply IHr. exact En. }
+  rewrite Hs. reflexivity.
+Qed.
+
+Lemma keys_loop_none : forall n i, keys_loop n i None = Ok (iota_from (Z.of_nat i) n).
+Proof.
+  induction n as [|n IH]; intros i; [reflexivity|]. simpl. rewrite IH. do 3 f_equal. lia.
+Qed.
+
+Theorem indexed_keys_ok : forall a, Inv a -> indexed_keys a = Ok (m_keys (abs a)).
+Proof.
+  intros [l oi] HI. unfold indexed_keys, abs, m_keys. simpl a_idx. simpl a_list.
+  destruct oi as [ix|].
+  - destruct HI as (H1 & H2 & H3). simpl in *. rewrite keys_loop_some by lia. simpl.
+    rewrite combine_keys by exact H1. rewrite <- H1. rewrite firstn_all. reflexivity.
+  - rewrite keys_loop_none. rewrite combine_keys by (unfold iota; rewrite iota_from_length; reflexivity). reflexivity.
+Qed.
+
+Theorem count_ok : forall a, Inv a -> count a = m_count (abs a).
+Proof.
+  intros a HI. destruct (inv_idx a HI) as [H1 _]. unfold count, m_count, len. rewrite abs_idx.
+  rewrite combine_length. lia.
+Qed.
+
+Theorem vals_ok : forall a, Inv a -> a_list a = m_vals (abs a).
+Proof.
+  intros a HI. destruct (inv_idx a HI) as [H1 _]. unfold m_vals. rewrite abs_idx. rewrite combine_vals by exact H1. reflexivity.
+Qed.
+
+Lemma last_combine : forall (ix : list Z) (l : list str) x0 y0, length ix = length l -> ix <> [] ->
+  fst (last (combine ix l) (x0, y0)) = last ix x0.
+Proof.
+  induction ix as [|x r IH]; intros l x0 y0 Hlen Hne; [congruence|].
+  destruct l as [|y l]; [discriminate|]. simpl in Hlen.
+  destruct r as [|x' r'].
+  - destruct l; [reflexivity|discriminate].
+  - destruct l as [|y' l']; [discriminate|].
+    change (fst (last (combine (x' :: r') (y' :: l')) (x0, y0)) = last (x' :: r') x0).
+    apply IH; [simpl in *; lia|congruence].
+Qed.
+
+Lemma last_iota : forall n s, last (iota_from s (S n)) 0 = s + Z.of_nat n.
+Proof.
+  intros. rewrite iota_from_snoc. rewrite last_last. reflexivity.
+Qed.
+
+Theorem indexed_max_ok : forall a, Inv a -> indexed_max (a_list a) (a_idx a) = m_max (abs a).
+Proof.
+  intros [l oi] HI. unfold indexed_max, abs, m_max. simpl a_idx. simpl a_list.
+  destruct oi as [ix|].
+  - destruct HI as (H1 & H2 & H3). simpl in *. destruct ix as [|x r]; [discriminate|].
+    destruct l as [|y l]; [discriminate|].
+    change (last (x :: r) 0 = fst (last (combine (x :: r) (y :: l)) (0, []))).
+    symmetry. apply last_combine; [exact H1|congruence].
+  - destruct l as [|y l]; [reflexivity|].
+    change (len (y :: l) - 1 = fst (last (combine (iota (length (y :: l))) (y :: l)) (0, []))).
+    transitivity (last (iota (length (y :: l))) 0).
+    + unfold iota. simpl length. rewrite last_iota. unfold len. simpl length. lia.
+    + symmetry. apply last_combine.
+      * unfold iota. rewrite iota_from_length. reflexivity.
+      * unfold iota. simpl. discriminate.
+Qed.
+
+(* ================================================================ C. the interpreter's operations *)
+
+Lemma resolve_ok : forall a k, Inv a -> resolve_neg (a_list a) (a_idx a) k = m_resolve (abs a) k.
+Proof.
+  intros a k HI. unfold resolve_neg, m_resolve. rewrite (indexed_max_ok a HI). reflexivity.
+Qed.
+
+Lemma m_resolve_nonneg : forall m k k', m_resolve m k = Some k' -> 0 <= k'.
+Proof.
+  unfold m_resolve. intros m k k' H. destruct (k <? 0) eqn:E.
+  - destruct (k + (m_max m + 1) <? 0) eqn:E2; inversion H. lia.
+  - inversion H. lia.
+Qed.
+
+Lemma base_arr_ok : forall v, InvVar v -> Inv (base_arr v) /\ abs (base_arr v) = s_base (abs_var v).
+Proof. intros [|s|a] H; simpl; auto; split; try exact I; reflexivity. Qed.
+
+Lemma empty_arr_ok : Inv (mkArr [] None) /\ abs (mkArr [] None) = [].
+Proof. split; [exact I|reflexivity]. Qed.
+
+Lemma assign_loop_ok : forall es a index, Inv a -> 0 <= index ->
+  exists a' e, assign_loop es a index = Ok (a', e) /\ Inv a' /\ (abs a', e) = s_assign_loop es (abs a) index.
+Proof.
+  induction es as [|[k v|v] r IH]; intros a index HI Hidx.
+  - exists a, false. simpl. auto.
+  - simpl. rewrite (resolve_ok a k HI). destruct (m_resolve (abs a) k) as [k'|] eqn:Er.
+    + pose proof (m_resolve_nonneg _ _ _ Er) as Hk'.
+      destruct (set_elem_ok a k' v HI Hk') as (a1 & H1 & H2 & H3). rewrite H1.
+      destruct (IH a1 (k' + 1) H2) as (a' & e & G1 & G2 & G3); [lia|].
+      exists a', e. rewrite G1, G3, H3. auto.
+    + exists a, true. auto.
+  - simpl. destruct (set_elem_ok a index v HI Hidx) as (a1 & H1 & H2 & H3). rewrite H1.
+    destruct (IH a1 (index + 1) H2) as (a' & e & G1 & G2 & G3); [lia|].
+    exists a', e. rewrite G1, G3, H3. auto.
+Qed.
+
+Lemma m_max_ge : forall a, Inv a -> -1 <= m_max (abs a).
+Proof.
+  intros a HI. rewrite <- (indexed_max_ok a HI). destruct (inv_idx a HI) as [H1 H2].
+  unfold indexed_max, idx_of in *. destruct (a_idx a) as [[|x r]|]; unfold len; try lia.
+  assert (In (last (x :: r) 0) (x :: r)).
+  { clear. generalize x. induction r as [|y r IH]; intros x0; [left; reflexivity|]. right. apply IH. }
+  apply In_nth_error in H. destruct H as [n Hn]. pose proof (sorted_nth_ge _ _ _ _ H2 Hn). lia.
+Qed.
+
+Lemma assign_arr_ok : forall base es, Inv base ->
+  exists a' e, assign_arr base es = Ok (VArr a', e) /\ Inv a' /\
+               (abs a', e) = s_assign_loop es (abs base) (m_max (abs base) + 1).
+Proof.
+  intros base es HI. unfold assign_arr. rewrite (indexed_max_ok base HI).
+  pose proof (m_max_ge base HI).
+  destruct (assign_loop_ok es base (m_max (abs base) + 1) HI) as (a' & e & H1 & H2 & H3); [lia|].
+  rewrite H1. exists a', e. auto.
+Qed.
+
+Definition step_good (v : var) (o : op) : Prop :=
+  exists v' e, step v o = Ok (v', e) /\ InvVar v' /\ (abs_var v', e) = s_step (abs_var v) o.
+
+Lemma ret_arr_good : forall a k s v o m, Inv a -> 0 <= k ->
+  s_step (abs_var v) o = (SArr (m_set k s m), false) -> abs a = m ->
+  exists v' e, ret_arr (set_elem a k s) = Ok (v', e) /\ InvVar v' /\ (abs_var v', e) = s_step (abs_var v) o.
+Proof.
+  intros a k s v o m HI Hk Hs Ha. destruct (set_elem_ok a k s HI Hk) as (a' & H1 & H2 & H3).
+  rewrite H1. exists (VArr a'), false. simpl. rewrite Hs, H3, Ha. auto.
+Qed.
+
+Lemma step_set_with_index : forall v k s (app : bool), InvVar v ->
+  exists v' e, set_with_index v k s app = Ok (v', e) /\ InvVar v' /\
+    (abs_var v', e) = s_step (abs_var v) (if app then OAppElem k s else OSetElem k s).
+Proof.
+  intros v k s app HI. destruct (base_arr_ok v HI) as [B1 B2]. unfold set_with_index.
+  rewrite (resolve_ok _ k B1), B2.
+  destruct app; simpl s_step; destruct (m_resolve (s_base (abs_var v)) k) as [k'|] eqn:Er;
+    try (exists v, true; auto; fail); pose proof (m_resolve_nonneg _ _ _ Er) as Hk'.
+  - rewrite (cur_elem_ok _ k' B1 Hk'), B2.
+    destruct (set_elem_ok (base_arr v) k' (s_get_or_empty k' (s_base (abs_var v)) ++ s) B1 Hk') as (a' & H1 & H2 & H3).
+    rewrite H1. exists (VArr a'), false. simpl. rewrite H3, B2. auto.
+  - destruct (set_elem_ok (base_arr v) k' s B1 Hk') as (a' & H1 & H2 & H3).
+    rewrite H1. exists (VArr a'), false. simpl. rewrite H3, B2. auto.
+Qed.
+
+Lemma head_append : forall a x r s, Inv a -> a_list a = x :: r ->
+  (a_idx a = None \/ exists ir, a_idx a = Some (0 :: ir)) ->
+  Inv (mkArr ((x ++ s) :: r) (a_idx a)) /\
+  abs (mkArr ((x ++ s) :: r) (a_idx a)) = m_set 0 (s_get_or_empty 0 (abs a) ++ s) (abs a).
+Proof.
+  intros [l oi] x r s HI Hl Hi. simpl in *. subst l.
+  destruct Hi as [Hn|[ir Hs]]; subst oi.
+  - split; [exact I|]. unfold abs, s_get_or_empty. simpl. reflexivity.
+  - destruct HI as (H1 & H2 & H3). simpl in *. split.
+    + unfold Inv. simpl. auto.
+    + unfold abs, s_get_or_empty. simpl. reflexivity.
+Qed.
+
+Lemma get0_none : forall a, Inv a ->
+  (a_list a = [] \/ exists i0 ir, a_idx a = Some (i0 :: ir) /\ i0 <> 0) -> m_get 0 (abs a) = None.
+Proof.
+  intros [l oi] HI H. simpl in *. destruct H as [H|(i0 & ir & H & Hne)].
+  - subst l. unfold abs. simpl. destruct oi as [ix|]; [destruct ix|]; reflexivity.
+  - subst oi. destruct HI as (H1 & H2 & H3). simpl in *. unfold abs. simpl.
+    apply (get_above (i0 :: ir) l 0 i0); [|lia]. simpl. split; [lia|tauto].
+Qed.
+
+Theorem step_ok : forall v o, InvVar v -> step_good v o.
+Proof.
+  intros v o HI. unfold step_good. destruct o as [k s|k s|k|es|es|s|s| |colon k s].
+  - (* a[k]=s *) exact (step_set_with_index v k s false HI).
+  - (* a[k]+=s *) exact (step_set_with_index v k s true HI).
+  - (* unset 'a[k]' *)
+    destruct v as [|p|a]; simpl.
+    + exists VUnset, false. auto.
+    + destruct (k =? 0); [exists VUnset, false|exists (VStr p), true]; auto.
+    + simpl in HI. rewrite (resolve_ok a k HI). destruct (m_resolve (abs a) k) as [k'|].
+      * destruct (delete_elem_ok a k' HI) as (a' & H1 & H2 & H3). rewrite H1.
+        exists (VArr a'), false. simpl. rewrite H3. auto.
+      * exists (VArr a), true. auto.
+  - (* a=( ... ) *)
+    destruct (assign_arr_ok (mkArr [] None) es I) as (a' & e & H1 & H2 & H3).
+    exists (VArr a'), e. simpl step. rewrite H1. split; [reflexivity|]. split; [exact H2|].
+    simpl s_step. change (abs (mkArr [] None)) with (@nil (Z * str)) in H3. simpl in H3. rewrite <- H3. reflexivity.
+  - (* a+=( ... ) *)
+    destruct (base_arr_ok v HI) as [B1 B2].
+    destruct (assign_arr_ok (base_arr v) es B1) as (a' & e & H1 & H2 & H3).
+    exists (VArr a'), e. simpl step. rewrite H1. split; [reflexivity|]. split; [exact H2|].
+    simpl s_step. rewrite <- B2, <- H3. reflexivity.
+  - (* a=s *)
+    destruct v as [|p|a]; simpl.
+    + exists (VStr s), false. auto.
+    + exists (VStr s), false. auto.
+    + simpl in HI. destruct (set_elem_ok a 0 s HI) as (a' & H1 & H2 & H3); [lia|]. rewrite H1.
+      exists (VArr a'), false. simpl. rewrite H3. auto.
+  - (* a+=s *)
+    destruct v as [|p|a]; simpl.
+    + exists (VStr s), false. auto.
+    + exists (VStr (p ++ s)), false. auto.
+    + simpl in HI.
+      assert (Hset : a_list a = [] \/ (exists i0 ir, a_idx a = Some (i0 :: ir) /\ i0 <> 0) ->
+                exists v' e, ret_arr (set_elem a 0 s) = Ok (v', e) /\ InvVar v' /\
+                             (abs_var v', e) = (SArr (m_set 0 (s_get_or_empty 0 (abs a) ++ s) (abs a)), false)).
+      { intros Hc. destruct (set_elem_ok a 0 s HI) as (a' & H1 & H2 & H3); [lia|]. rewrite H1.
+        exists (VArr a'), false. simpl. rewrite H3. unfold s_get_or_empty. rewrite (get0_none a HI Hc). auto. }
+      destruct (a_list a) as [|x r] eqn:El; [apply Hset; left; reflexivity|].
+      destruct (a_idx a) as [[|i0 ir]|] eqn:Ei.
+      * exfalso. unfold Inv in HI. rewrite Ei in HI. destruct HI as (_ & _ & H3). discriminate.
+      * destruct (i0 =? 0) eqn:E0.
+        -- assert (i0 = 0) by lia. subst i0.
+           destruct (head_append a x r s HI El) as [G1 G2]; [right; eauto|]. rewrite Ei in G1, G2.
+           exists (VArr (mkArr ((x ++ s) :: r) (Some (0 :: ir)))), false. simpl. rewrite G2. auto.
+        -- apply Hset. right. exists i0, ir. split; [reflexivity|lia].
+      * destruct (head_append a x r s HI El) as [G1 G2]; [left; exact Ei|]. rewrite Ei in G1, G2.
+        exists (VArr (mkArr ((x ++ s) :: r) None)), false. simpl. rewrite G2. auto.
+  - (* unset a *) exists VUnset, false. simpl. auto.
+  - (* ${a[k]=s} ${a[k]:=s} *)
+    destruct (base_arr_ok v HI) as [B1 B2].
+    destruct v as [|p|a]; simpl step; simpl s_step; unfold var_index, assign_elem.
+    + (* unset name *)
+      simpl negb. simpl orb. cbv iota. simpl a_list. simpl a_idx.
+      change (resolve_neg [] None k) with (m_resolve [] k).
+      destruct (m_resolve [] k) as [k'|] eqn:Er; [|exists VUnset, true; auto].
+      pose proof (m_resolve_nonneg _ _ _ Er) as Hk'.
+      destruct (set_elem_ok (mkArr [] None) k' s I Hk') as (a' & H1 & H2 & H3). simpl base_arr. rewrite H1.
+      exists (VArr a'), false. simpl. rewrite H3. auto.
+    + (* scalar *)
+      simpl a_list. simpl a_idx. change (resolve_neg [] None k) with (m_resolve [] k).
+      assert (Hassign : forall k', m_resolve [] k = Some k' ->
+                exists v' e, ret_arr (set_elem (mkArr [p] None) k' s) = Ok (v', e) /\ InvVar v' /\
+                             (abs_var v', e) = (SArr (m_set k' s [(0, p)]), false)).
+      { intros k' Er. pose proof (m_resolve_nonneg _ _ _ Er) as Hk'.
+        destruct (set_elem_ok (mkArr [p] None) k' s I Hk') as (a' & H1 & H2 & H3). rewrite H1.
+        exists (VArr a'), false. simpl. rewrite H3. auto. }
+      destruct (k =? 0) eqn:E0.
+      * assert (k = 0) by lia. subst k. change (m_resolve [] 0) with (Some 0). simpl negb. simpl orb.
+        destruct p as [|c p'].
+        -- destruct colon; simpl andb; cbv iota.
+           ++ apply Hassign. reflexivity.
+           ++ exists (VStr []), false. auto.
+        -- rewrite andb_false_r. exists (VStr (c :: p')), false. auto.
+      * simpl negb. simpl orb. cbv iota.
+        destruct (m_resolve [] k) as [k'|] eqn:Er; [|exists (VStr p), true; auto].
+        apply Hassign. reflexivity.
+    + (* array *)
+      simpl in HI. simpl base_arr. rewrite (resolve_ok a k HI).
+      destruct (m_resolve (abs a) k) as [k'|] eqn:Er; [|exists (VArr a), true; auto].
+      pose proof (m_resolve_nonneg _ _ _ Er) as Hk'.
+      rewrite (indexed_val_ok a k' HI Hk').
+      assert (Hassign : exists v' e, ret_arr (set_elem a k' s) = Ok (v', e) /\
+                          InvVar v' /\ (abs_var v', e) = (SArr (m_set k' s (abs a)), false)).
+      { destruct (set_elem_ok a k' s HI Hk') as (a' & H1 & H2 & H3). rewrite H1.
+        exists (VArr a'), false. simpl. rewrite H3. auto. }
+      destruct (m_get k' (abs a)) as [[|c cur]|].
+      * simpl negb. simpl orb. destruct colon; simpl andb; cbv iota.
+        -- exact Hassign.
+        -- exists (VArr a), false. auto.
+      * simpl negb. simpl orb. rewrite andb_false_r. exists (VArr a), false. auto.
+      * simpl negb. simpl orb. exact Hassign.
+Qed.
+
+(* ================================================================ D. all histories *)
+
+Theorem run_from_ok : forall ops v, InvVar v ->
+  exists v', run_from v ops = Ok v' /\ InvVar v' /\ abs_var v' = s_run_from (abs_var v) ops.
+Proof.
+  induction ops as [|o ops IH]; intros v HI.
+  - exists v. auto.
+  - destruct (step_ok v o HI) as (v1 & e & H1 & H2 & H3).
+    destruct (IH v1 H2) as (v' & G1 & G2 & G3).
+    exists v'. unfold run_from, s_run_from in *. simpl. rewrite H1. rewrite G1. split; [reflexivity|]. split; [exact G2|].
+    rewrite G3. rewrite <- H3. reflexivity.
+Qed.
+
+Theorem run_ok : forall ops, exists v, run ops = Ok v /\ InvVar v /\ abs_var v = s_run ops.
+Proof. intros ops. exact (run_from_ok ops VUnset I). Qed.
+
+Theorem run_no_panic : forall ops, run ops <> Panic /\ (forall c, run ops <> Err c).
+Proof. intros ops. destruct (run_ok ops) as (v & H & _). rewrite H. split; [discriminate|intros; discriminate]. Qed.
+
+Theorem step_no_panic : forall v o, InvVar v -> step v o <> Panic /\ (forall c, step v o <> Err c).
+Proof. intros v o HI. destruct (step_ok v o HI) as (v' & e & H & _). rewrite H. split; [discriminate|intros; discriminate]. Qed.
+
+(* the invariant in the words of the Variable.Indexes documentation *)
+Lemma sorted_from_spec : forall ix lo, sorted_from lo ix <->
+  (forall i x, nth_error ix i = Some x -> lo <= x) /\
+  (forall i j x y, (i < j)%nat -> nth_error ix i = Some x -> nth_error ix j = Some y -> x < y).
+Proof.
+  induction ix as [|a r IH]; intros lo.
+  - simpl. split; [intros _|tauto]. split; intros; destruct i; discriminate.
+  - simpl. rewrite IH. split.
+    + intros (H1 & H2 & H3). split.
+      * intros [|i] x Hn; simpl in Hn; [inversion Hn; lia|]. specialize (H2 _ _ Hn). lia.
+      * intros [|i] [|j] x y Hij Hi Hj; simpl in *; try lia.
+        -- inversion Hi; subst. specialize (H2 _ _ Hj). lia.
+        -- apply (H3 i j); auto. lia.
+    + intros (H1 & H2). split; [apply (H1 O); reflexivity|]. split.
+      * intros i x Hn. specialize (H2 O (S i) a x). simpl in H2. specialize (H2 ltac:(lia) eq_refl Hn). lia.
+      * intros i j x y Hij Hi Hj. apply (H2 (S i) (S j)); auto. lia.
+Qed.
+
+Theorem inv_documented : forall a, Inv a <->
+  match a_idx a with
+  | None => True
+  | Some ix => length ix = length (a_list a) /\
+               (forall i x, nth_error ix i = Some x -> 0 <= x) /\
+               (forall i j x y, (i < j)%nat -> nth_error ix i = Some x -> nth_error ix j = Some y -> x < y) /\
+               ix <> iota (length ix)
+  end.
+Proof.
+  intros a. unfold Inv. destruct (a_idx a) as [ix|]; [|tauto].
+  rewrite sorted_from_spec. split.
+  - intros (H1 & (H2 & H3) & H4). repeat split; auto. intros Hc. rewrite Hc in H4. unfold iota in H4.
+    rewrite is_iota_from_iota in H4. discriminate.
+  - intros (H1 & H2 & H3 & H4). repeat split; auto.
+    destruct (is_iota_from 0 ix) eqn:E; [|reflexivity]. exfalso. apply H4. apply is_iota_from_eq. exact E.
+Qed.
+
+(* what every expansion of the array shows, after any history *)
+Definition agrees (v : var) (s : sval) : Prop :=
+  match v, s with
+  | VUnset, SUnset => True
+  | VStr x, SStr y => x = y
+  | VArr a, SArr m =>
+      a_list a = m_vals m /\ indexed_keys a = Ok (m_keys m) /\ count a = m_count m /\
+      indexed_max (a_list a) (a_idx a) = m_max m /\
+      (forall i, 0 <= i -> indexed_val a i = Ok (m_get i m)) /\
+      (forall k, resolve_neg (a_list a) (a_idx a) k = m_resolve m k)
+  | _, _ => False
+  end.
+
+Lemma abs_agrees : forall v, InvVar v -> agrees v (abs_var v).
+Proof.
+  intros [|s|a] HI; simpl; auto. simpl in HI. repeat split.
+  - apply vals_ok; exact HI.
+  - apply indexed_keys_ok; exact HI.
+  - apply count_ok; exact HI.
+  - apply indexed_max_ok; exact HI.
+  - intros. apply indexed_val_ok; assumption.
+  - intros. apply resolve_ok; exact HI.
+Qed.
+
+Theorem history_observations : forall ops, exists v, run ops = Ok v /\ agrees v (s_run ops).
+Proof.
+  intros ops. destruct (run_ok ops) as (v & H1 & H2 & H3). exists v. split; [exact H1|].
+  rewrite <- H3. apply abs_agrees. exact H2.
+Qed.
+
+(* the reference map reached by any history is well-formed (strictly increasing non-negative keys) *)
+Lemma abs_wf : forall a, Inv a -> m_wf 0 (abs a).
+Proof.
+  intros a HI. destruct (inv_idx a HI) as [H1 H2]. unfold m_wf. rewrite abs_idx, combine_keys by exact H1. exact H2.
 Qed.
